@@ -34,7 +34,9 @@ Fixpoint errors_status (statuses : list bytes) : Z :=
   | [] => 500
   | s :: rest => match valid_status s with Some n => n | None => errors_status rest end
   end.
-Definition status_of (e : err) : Z := errors_status [e_status e].
+(** ... of the document reporting [e] alone; an error object that does not serialise makes it the
+    500 of the marshal fallback *)
+Definition status_of (e : err) : Z := if e_meta_ok e then errors_status [e_status e] else 500.
 
 (** *** Accept (JSON:API 1.1 "Server Responsibilities"): an instance of the media type is usable
     when it parses and carries no parameter other than profile; the header value of each line is a
